@@ -224,7 +224,7 @@ func c16RunHandoff(m *vk.M, idx int, hc c16HandoffCase) (nontrivial, ok bool) {
 	for _, a := range adds {
 		all = append(all, a.task)
 	}
-	if !vk.WaitUntil(20*time.Second, func() bool { return s.executed(all) && atomic.LoadInt32(&s.inExec) == 0 }) && atomic.LoadInt32(&s.inExec) != 0 {
+	if !s.settle(all) {
 		m.Inconclusive("case %d: an execute callback was still running 20 s after the final Wait", idx)
 		return false, false
 	}
@@ -258,6 +258,10 @@ func TestVerifC16Handoff(t *testing.T) {
 					idx++
 					if !m.Only(idx) {
 						continue
+					}
+					if m.ViolCount() >= c16EnoughWitnesses {
+						m.Note("stopped before case %d: enough witnesses", idx)
+						return
 					}
 					hc := c16HandoffCase{Cfg: c16Cfg{Kind: kind, N: batch}, Batch: batch, Waiter: waiter}
 					nt, ok := c16RunHandoff(m, idx, hc)
@@ -501,6 +505,10 @@ func TestVerifC16Idle(t *testing.T) {
 		}
 		if !m.Only(idx) {
 			continue
+		}
+		if m.ViolCount() >= c16EnoughWitnesses {
+			m.Note("stopped before case %d: enough witnesses", idx)
+			break
 		}
 		class, ok := c16RunIdle(m, idx, ic)
 		if !ok {
